@@ -15,6 +15,7 @@ import (
 	"github.com/elementsproject/peerswap/swap"
 	"pgregory.net/rapid"
 
+	"verifharness/pbt"
 	"verifharness/sim"
 	"verifharness/stats"
 )
@@ -54,9 +55,14 @@ func genU64(t *rapid.T, label string) uint64 {
 	return rapid.OneOf(rapid.Uint64(), rapid.SampledFrom([]uint64{0, 1, 1<<64 - 1, 1 << 53, 1<<53 + 1, 1 << 63})).Draw(t, label)
 }
 
-func TestC21Marshal(t *testing.T) {
+func TestC21Marshal(t *testing.T) { propC21Marshal(t) }
+
+// FuzzC21Marshal drives the same property body with Go's coverage-guided fuzzer (thorough tier).
+func FuzzC21Marshal(f *testing.F) { propC21Marshal(f) }
+
+func propC21Marshal(t testing.TB) {
 	col := stats.Get("C21.marshal")
-	rapid.Check(t, func(t *rapid.T) {
+	pbt.Run(t, func(t *rapid.T) {
 		kind := rapid.SampledFrom([]string{"swap_in_request", "swap_out_request", "swap_in_agreement", "swap_out_agreement", "opening_tx_broadcasted", "cancel", "coop_close"}).Draw(t, "kind")
 		var msg swap.PeerMessage
 		var fresh func() interface{}
@@ -191,9 +197,14 @@ func junkType(t *rapid.T) string {
 	).Draw(t, "typestr")
 }
 
-func TestC21Junk(t *testing.T) {
+func TestC21Junk(t *testing.T) { propC21Junk(t) }
+
+// FuzzC21Junk drives the same property body with Go's coverage-guided fuzzer (thorough tier).
+func FuzzC21Junk(f *testing.F) { propC21Junk(f) }
+
+func propC21Junk(t testing.TB) {
 	col := stats.Get("C21.junk")
-	rapid.Check(t, func(t *rapid.T) {
+	pbt.Run(t, func(t *rapid.T) {
 		h := newHist(t, HistCfg{MaxSteps: 8, Chains: []string{"btc", "lbtc"}, MultiSwap: true,
 			Weights: map[string]int{"start": 3, "deliver": 4, "settle": 1, "mine": 1}})
 		defer h.Close()
